@@ -164,7 +164,8 @@ def _e2e(ctx: Ctx, cases: List[Dict[str, Any]], type_list: List[str], max_filter
         r = rng(seed, "c13-e2e", t)
         filter_keys = sorted(filt)
         if len(filter_keys) > max_filters:
-            filter_keys = r.sample(filter_keys, max_filters)
+            # types with a literal-perturbation pass get a larger sample: the unsound cases need the literal ON a file's bound
+            filter_keys = r.sample(filter_keys, min(len(filter_keys), max_filters * (6 if t in ("float", "date", "timestamp") else 1)))
         oracle: Dict[Tuple[str, str], List[int]] = {(json.dumps(c["file"]), json.dumps(c["exprs"])): c["rows"] for c in mine}
         d = scratch_dir("c13")
         try:
